@@ -17,6 +17,11 @@
 (* sparse vectors and are fed to the inverse transform, whose expected        *)
 (* output is the documented scale times the sparse vector (inversion          *)
 (* theorem, checked by TLC below where the dense sum itself is known).        *)
+(* One more exactly computable class exists for every composite n, odd ones   *)
+(* included: combs.  The sum of a full cycle of r-th roots of unity is r or   *)
+(* 0, hence the transform of the comb with step s | n is n/s times the comb   *)
+(* with step n/s (family 20; the closed form is checked against the table-    *)
+(* based sum wherever that is computable, i.e. n/s in {1,2,4}).               *)
 (*                                                                            *)
 (* The sums are those documented for FFTPACK (1-based there, 0-based here):   *)
 (*   C.coef   X[i] = sum_k x[k] exp(-2 pi i k i/n)      C.seq: conjugate kernel, scale n *)
@@ -160,7 +165,8 @@ SetToSeq(S) == IF S = {} THEN <<>> ELSE LET m == CHOOSE x \in S : \A y \in S : x
    0      all fully-known impulse positions at once, distinct coefficients
    1..4   the j-th fully-known position alone
    5, 6   an impulse at a seed-chosen position (only some outputs known: masked)
-   7, 8   n <= 4: a dense seed-chosen vector                                   *)
+   7..19  n <= 4: a dense seed-chosen vector
+   20     weighted sum of the combs of all steps s | n (complex / real FFT and radix kinds) *)
 Sparse(kind, n, fam) ==
     LET fp == SetToSeq(FullPos(kind, n))
         L  == InLen(kind, n)
@@ -168,12 +174,15 @@ Sparse(kind, n, fam) ==
          [] fam \in 1 .. 4 -> IF fam <= Len(fp) THEN <<Elem(kind, n, fp[fam], 7)>> ELSE <<>>
          [] fam \in 5 .. 6 -> LET p == (Seed * 31 + n * 17 + fam * 101) % L IN
                               IF p \in FullPos(kind, n) THEN <<>> ELSE <<Elem(kind, n, p, fam)>>
+         [] fam = 20 -> <<>>
          [] OTHER -> IF n <= 4 THEN [j \in 1 .. L |-> Elem(kind, n, j - 1, fam + j)] ELSE <<>>
 
 Abs(v) == IF v < 0 THEN -v ELSE v
 \* |v|_1 of a flat vector of known length (the length is passed: v may be an unevaluated function)
 RECURSIVE L1(_, _, _)
-L1(v, j, hi) == IF j > hi THEN 0 ELSE Abs(v[j]) + L1(v, j + 1, hi)
+L1(v, lo, hi) == \* (divide and conquer: TLC evaluates deep linear recursion in quadratic time)
+    IF lo > hi THEN 0 ELSE IF lo = hi THEN Abs(v[lo])
+    ELSE LET m == (lo + hi) \div 2 IN L1(v, lo, m) + L1(v, m + 1, hi)
 FlatIn(kind, n)  == IF CplxIn(kind)  THEN 2 * InLen(kind, n)  ELSE InLen(kind, n)
 FlatOut(kind, n) == IF CplxOut(kind) THEN 2 * OutLen(kind, n) ELSE OutLen(kind, n)
 
@@ -211,6 +220,41 @@ CaseB(kind, n, fam, sp) ==
      want |-> ScaleVec(DenseOf(sp, InLen(kind, n), CplxIn(kind)), Scale(kind, n), FlatIn(kind, n)),
      mask |-> <<>>, l1 |-> L1(x, 1, FlatOut(kind, n)), tolk |-> TolK(kind, n)]
 
+
+(********************************** combs ***********************************)
+CombKinds == {"C.coef", "C.seq", "FFT.coef", "FFT.seq", "R2.coef", "R2.seq", "R4.coef", "R4.seq"}
+Divs(n) == {s \in 1 .. n : n % s = 0}
+\* weight of the comb of step s: Gaussian for complex input, real for the real FFT (both directions:
+\* the spectrum of a real comb is a real comb)
+CombW(kind, n, s) == <<Val(n, s, 0), IF kind \in {"FFT.coef", "FFT.seq"} THEN 0 ELSE Val(n, s, 1)>>
+RECURSIVE SumW(_, _, _, _)
+SumW(kind, n, S, part) == IF S = {} THEN 0
+                          ELSE LET s == CHOOSE t \in S : TRUE IN CombW(kind, n, s)[part] + SumW(kind, n, S \ {s}, part)
+RECURSIVE SumWS(_, _, _, _)
+SumWS(kind, n, S, part) == IF S = {} THEN 0
+                           ELSE LET s == CHOOSE t \in S : TRUE IN (n \div s) * CombW(kind, n, s)[part] + SumWS(kind, n, S \ {s}, part)
+\* x[m] = sum of the weights of the steps dividing m;  X[k] = sum over steps s with (n/s) | k of (n/s) * weight
+\* (D = Divs(n), passed so that it is computed once)
+CombIn(kind, n, D, m, part)  == SumW(kind, n, {s \in D : m % s = 0}, part)
+CombOut(kind, n, D, k, part) == SumWS(kind, n, {s \in D : k % (n \div s) = 0}, part)
+CombCase(kind, n) ==
+    LET LI == InLen(kind, n)
+        LO == OutLen(kind, n)
+        D  == Divs(n)
+        x  == IF CplxIn(kind) THEN [q \in 1 .. 2 * LI |-> CombIn(kind, n, D, (q - 1) \div 2, 1 + ((q - 1) % 2))]
+              ELSE [q \in 1 .. LI |-> CombIn(kind, n, D, q - 1, 1)]
+        w  == IF CplxOut(kind) THEN [q \in 1 .. 2 * LO |-> CombOut(kind, n, D, (q - 1) \div 2, 1 + ((q - 1) % 2))]
+              ELSE [q \in 1 .. LO |-> CombOut(kind, n, D, q - 1, 1)]
+    IN [k |-> kind, n |-> n, fam |-> 20, dir |-> "A", x |-> x, want |-> w, mask |-> <<>>,
+        l1 |-> L1(x, 1, FlatIn(kind, n)), tolk |-> TolK(kind, n)]
+\* the closed form against the table-based defining sum, for every step whose cycle length n/s is 1, 2 or 4
+CombTheorem(kind, n) ==
+    \A s \in Divs(n) : (n \div s) \in {1, 2, 4} /\ (kind # "FFT.seq" \/ s = n) =>
+        LET r  == n \div s
+            sp == [j \in 1 .. r |-> <<(j - 1) * s, 1, 0>>]
+        IN /\ FullyKnown(kind, n, sp)
+           /\ \A k \in 0 .. OutLen(kind, n) - 1 : Out(kind, n, sp, k) = <<IF k % r = 0 THEN r ELSE 0, 0>>
+
 (****************************** state space *********************************)
 \* (the sparse vector of the case is part of the state so that it is evaluated once)
 Init == cs \in {[kind |-> c[1], n |-> c[2], fam |-> c[3], sp |-> Sparse(c[1], c[2], c[3])] :
@@ -241,8 +285,11 @@ InversionLemma ==
       IN FullyKnown(ik, cs.n, y) =>
            OutVec(ik, cs.n, y) = ScaleVec(DenseOf(SP, InLen(cs.kind, cs.n), CplxIn(cs.kind)), Scale(cs.kind, cs.n), FlatIn(cs.kind, cs.n))
 
+CombOK == (cs.fam = 20 /\ cs.kind \in CombKinds /\ cs.n <= 64) => CombTheorem(cs.kind, cs.n)
+
 EmitCases ==
-    (Emit /\ HasCase) =>
-      /\ PrintT(ToJson(CaseA(cs.kind, cs.n, cs.fam, SP)))
-      /\ FullyKnown(cs.kind, cs.n, SP) => PrintT(ToJson(CaseB(cs.kind, cs.n, cs.fam, SP)))
+    /\ (Emit /\ HasCase) =>
+         /\ PrintT(ToJson(CaseA(cs.kind, cs.n, cs.fam, SP)))
+         /\ FullyKnown(cs.kind, cs.n, SP) => PrintT(ToJson(CaseB(cs.kind, cs.n, cs.fam, SP)))
+    /\ (Emit /\ cs.fam = 20 /\ cs.kind \in CombKinds /\ cs.n > 1) => PrintT(ToJson(CombCase(cs.kind, cs.n)))
 =============================================================================
